@@ -109,7 +109,7 @@ def run_case(i, rng, tier):
     fired_total = 0
     for path, node in qnodes:
         role = "root" if not path else ("flow" if path[-1] in ("under", "over", "nan") else "value")
-        for mode in ("raise", "wrong"):
+        for mode in ("raise", "wrong", "wrong-np"):
             for pat in patterns:
                 fsp = S.set_at(sp, path, dict(node, qf="fault"))
                 h = S.build(fsp)
@@ -161,6 +161,45 @@ def run_case(i, rng, tier):
                 break
         if len(failures) > 4:
             break
+    # a record that lacks the field the root quantity reads: the natural failure of `lambda d: d["x"]` (KeyError)
+    # and of the string expression "x" (NameError).  No injection: the quantity itself fails.
+    if "f" in sp and not failures:
+        rf = sp["f"]
+        for pat in patterns[:6]:
+            h = S.build(sp)
+            survivors = []
+            for j, (r, w) in enumerate(stream):
+                rec = {kk: vv for kk, vv in r.items() if kk != rf} if j in pat else r
+                before = O.text(h)
+                raised = None
+                try:
+                    h.fill(rec, w)
+                except Exception as e:  # noqa: BLE001
+                    raised = e
+                counters["fills_with_missing_field_plan"] = counters.get("fills_with_missing_field_plan", 0) + 1
+                wit = {"tree": S.describe(sp), "spec": sp, "stream": C.stream_json(stream), "missing_field": rf, "positions": sorted(pat), "mode": "missing-field"}
+                if j in pat and R.gate(w):
+                    counters["missing_field_fills"] = counters.get("missing_field_fills", 0) + 1
+                    if raised is None:
+                        failures.append(C.fail(None, "record %d lacks the field %r the root quantity (%s) reads, yet fill did not raise: the failure was swallowed or a stale value was used" % (j, rf, sp.get("qf")), position=j, **wit))
+                        break
+                    if O.text(h) != before:
+                        failures.append(C.fail(None, "the fill of a record lacking field %r raised %s but changed the aggregator" % (rf, type(raised).__name__), position=j, **wit))
+                        break
+                elif raised is not None:
+                    failures.append(C.fail(None, "fill of a complete record raised %s: %s" % (type(raised).__name__, str(raised)[:120]), position=j, **wit))
+                    break
+                else:
+                    survivors.append((r, w))
+            else:
+                ok, d, _, inc = R.match(sp, survivors, O.observe(h), O.scale_of(survivors) if survivors else 1.0)
+                counters["survivor_model_checks"] = counters.get("survivor_model_checks", 0) + 1
+                if not ok and not inc:
+                    failures.append(C.fail(None, "after the loop with incomplete records the aggregate differs from the model of the %d complete ones: %s" % (len(survivors), C.fmt_diff(d)), tree=S.describe(sp), spec=sp, stream=C.stream_json(stream), missing_field=rf, positions=sorted(pat)))
+            if failures:
+                break
+            if pat:
+                digests.append(C.digest(sp, C.stream_json(stream), "missing:" + rf, sorted(pat)))
     res = {
         "digest": digests[0] if digests else None,
         "nontrivial": bool(digests),
@@ -178,9 +217,11 @@ def conclusive(agg):
     out = []
     fk = agg.sets.get("failing_kind", set())
     for k in KINDS:
-        for mode in ("raise", "wrong"):
-            if not any(x.startswith("%s:%s" % (k, mode)) for x in fk):
+        for mode in ("raise", "wrong", "wrong-np"):
+            if not any(x.startswith("%s:%s:" % (k, mode)) for x in fk):
                 out.append("no fired fault in a %s quantity, mode %s" % (k, mode))
     if not agg.counters.get("survivor_model_checks"):
         out.append("survivor model never evaluated")
+    if not agg.counters.get("missing_field_fills"):
+        out.append("missing-field failure mode never exercised")
     return out
